@@ -18,7 +18,9 @@ RULE = ('inputs to ModelLoader.input followed by build_metamodel: (a) arbitrary 
         'change a type name), (d) histories of 2-6 accepted / rejected inputs and builds on one loader, (e) pumped '
         'inputs (quote, double quote, --, -, digit and identifier runs of length 2^k, k <= 14). Oracle: input returns or '
         'raises ParsingException; after a rejected input the structural snapshot of loader.statements is unchanged '
-        'and every later build equals the build of a fresh loader fed only the accepted inputs; build returns or '
+        'and equals (file name, line and offset of every statement included) that of a fresh loader fed only the accepted '
+        'inputs, every later rejection carries the diagnostic that fresh loader gives, and every later build equals (result or '
+        'exception text) the build of that fresh loader; build returns or '
         'raises ParsingException / MetaException (sub)classes; every call returns within a 10 s alarm. '
         'non-trivial = input that lexes completely and is rejected by the grammar, or is accepted with >= 1 statement '
         'and then built; histories with a rejected input between two accepted ones; distinct = by input text.')
@@ -77,7 +79,7 @@ def guarded(case, what, fn, *args):
         return None, e
 
 
-def feed(case, loader, text):
+def feed(case, loader, text, accepted=None):
     """-> True if accepted; raises Violation on an undocumented outcome."""
     before = snapshot(loader)
     _, e = guarded(case, 'input', loader.input, text)
@@ -87,7 +89,24 @@ def feed(case, loader, text):
         raise Violation('input-undocumented-exception:' + exc_bucket(e), case, repr(e))
     if snapshot(loader) != before:
         raise Violation('rejected-input-changed-loader', case, 'loader.statements changed although input raised %r' % (e,))
+    if accepted is not None:
+        # "as if the rejected call had not happened": a loader that saw only the accepted inputs rejects this text in
+        # exactly the same way (same exception, same diagnostic incl. the position it names)
+        fresh = fresh_loader(case, accepted)
+        _, e2 = guarded(case, 'input', fresh.input, text)
+        if type(e2) is not type(e) or str(e2) != str(e):
+            raise Violation('rejection-differs-after-rejected-input', case,
+                            'loader with rejected inputs in its history raised %r, a loader fed the accepted inputs only %r' % (e, e2))
     return False
+
+
+def fresh_loader(case, accepted):
+    fresh = xtuml.ModelLoader()
+    for t in accepted:
+        _, e = guarded(case, 'input', fresh.input, t)
+        if e is not None:
+            raise Violation('accepted-input-rejected-by-fresh-loader', case, repr(e))
+    return fresh
 
 
 def build_of(case, loader, what='build'):
@@ -97,7 +116,7 @@ def build_of(case, loader, what='build'):
         return m, None
     if not isinstance(e, DOCUMENTED_BUILD):
         raise Violation('build-undocumented-exception:' + exc_bucket(e), case, repr(e))
-    return None, type(e).__name__
+    return None, '%s: %s' % (type(e).__name__, e)
 
 
 def run_history(case, res=None):
@@ -105,10 +124,12 @@ def run_history(case, res=None):
     loader = xtuml.ModelLoader()
     accepted = []
     n_rej_between = 0
+    n_rejected = 0
     last_rejected = False
     any_statement = False
     for k, text in enumerate(case['inputs']):
-        ok = feed(case, loader, text)
+        ok = feed(case, loader, text, accepted if n_rejected else None)
+        n_rejected += 0 if ok else 1
         if ok:
             if last_rejected and accepted:
                 n_rej_between += 1
@@ -118,11 +139,12 @@ def run_history(case, res=None):
             last_rejected = True
         if case['builds'][k % len(case['builds'])] or k == len(case['inputs']) - 1:
             m, ex = build_of(case, loader)
-            fresh = xtuml.ModelLoader()
-            for t in accepted:
-                _, e = guarded(case, 'input', fresh.input, t)
-                if e is not None:
-                    raise Violation('accepted-input-rejected-by-fresh-loader', case, repr(e))
+            fresh = fresh_loader(case, accepted)
+            if snapshot(loader) != snapshot(fresh):
+                # includes the file name / line / offset recorded with every accepted statement
+                d = [(a, b) for a, b in zip(snapshot(loader), snapshot(fresh)) if a != b][:1]
+                raise Violation('statements-differ-after-rejected-input', case,
+                                'loader.statements differ from those of a loader fed the accepted inputs only, e.g. %r' % (d,))
             m2, ex2 = build_of(case, fresh, 'fresh-build')
             if ex != ex2:
                 raise Violation('build-differs-after-rejected-input', case,
